@@ -112,6 +112,26 @@ def check(ctx):
                 if len(x.stack) > depth and x.kind in ("REGADDR", "REGTOPCALL", "LOOKUP", "LOOP"):
                     if x.kind != "LOOP" or any(isinstance(s, tuple) and s[:1] == ("regtop",) for s in subterms(x.a.get("iter") or ())):
                         reads.append(x)
+        # how the in-use test looks at each registry: a keyed window may be tested by membership of the identifier, a sequence of
+        # request objects (the hold-back queue) must be searched by the requests' identifiers
+        seq_regs = set()
+        for cls in a.protos[1:]:
+            for ent, p, x in catalogue(a, cls).all_events("REG"):
+                if x.a["how"] in ("append", "appendleft", "insert", "extend"):
+                    seq_regs.add(x.a["reg"])
+        for tr2, e2 in evs[:1]:
+            i = tr2.events.index(e2)
+            depth = len(e2.stack)
+            for x in reversed(tr2.events[:i]):
+                if x.kind == "CALL" and x.a["func"] == fq and len(x.stack) == depth:
+                    break
+                if x.kind == "MEMBER" and len(x.stack) > depth:
+                    srcs = {sub[1] for sub in subterms(x.a["container"]) if isinstance(sub, tuple) and sub[:1] == ("regtop",)}
+                    bad = sorted(srcs & seq_regs)
+                    ctx.ob("ID-INUSE", "%s tests membership of the identifier only in registries keyed by identifier" % short(fq), not bad,
+                           where=where(x), function=x.func, construct="%s/membership/%s" % (x.func, "+".join(bad) or "keyed"),
+                           msg="`identifier in container` is applied to %s, which holds request objects, not identifiers: the test is always "
+                               "false and identifiers of requests waiting there are handed out again" % bad, nontrivial=bool(srcs))
         regs_read = set()
         for x in reads:
             if x.a.get("reg"):
